@@ -2,7 +2,13 @@
    Statics and the context layout are reached by including the .c file. Every buffer handed to
    zvbi is an exact-size heap allocation so ASan sees any access beyond it. */
 #include "hutil.h"
+#include <unistd.h>
 #include "src/dvb_demux.c"
+
+/* watchdog: one op may take at most H_OP_SECONDS and produce at most H_OUT_MAX bytes; a runaway
+   (e.g. a frame loop that never ends) ends the process, which lib/verif.py attributes to the case */
+#define H_OP_SECONDS 20
+#define H_OUT_MAX (32u << 20)
 
 static vbi_dvb_demux *dx;
 static int has_cb, is_ts;
@@ -14,6 +20,7 @@ static void o_printf(const char *fmt, ...)
 	if (out_cap - out_len < 4096) { out_cap = out_cap ? out_cap * 2 : 1 << 16; out = realloc(out, out_cap); }
 	va_start(ap, fmt); n = vsnprintf(out + out_len, out_cap - out_len, fmt, ap); va_end(ap);
 	out_len += n;
+	if (out_len > H_OUT_MAX) { fprintf(stderr, "runaway output: frame loop does not terminate\n"); fflush(stdout); _exit(96); }
 }
 
 static int payload_size(vbi_service_set id)
@@ -112,6 +119,7 @@ int main(void)
 	int r;
 	while ((r = h_next())) {
 		long long v; int len; uint8_t *b;
+		alarm(H_OP_SECONDS);
 		if (r == 2) { drop(); continue; }
 		out_len = 0; n_frames = 0; if (out) out[0] = 0;
 		if (H_IS(0, "new") || H_IS(0, "newcor")) {
